@@ -557,3 +557,47 @@ def valid(lines):
         else:
             return False
     return True
+
+
+def ch_script(rng, nops):
+    """ops for the code-holder correspondence (harness ch_* commands / driver CH lines)"""
+    ops, blob_len = [], []
+    pending_new = None
+    for _ in range(nops):
+        k = rng.random()
+        usable = [i for i, l in enumerate(blob_len) if l > 0]
+        if pending_new is not None and k < 0.7:
+            if rng.random() < 0.8 and pending_new >= 1:
+                # zero-length publications are never made by the library and store an 8-byte pointer (reloc_size 0
+                # in _MIR_set_code) that may run past the holder: excluded here and by the theorem's precondition
+                L = rng.randrange(1, pending_new + 1)
+                ops.append('puba %d' % L)
+                blob_len.append(L)
+            else:
+                ops.append('pubax %d' % rng.randrange(0, 64))
+            pending_new = None
+        elif k < 0.45 or not usable:
+            L = rng.choice([1, 1, 5, 15, 16, 17, 37, 100, 255, 1000, 4000, 4081, 4095, 4096, 4097, 8192, 12000,
+                            rng.randrange(1, 600), rng.randrange(1, 600), rng.randrange(1, 6000)])
+            ops.append('pub %d' % L)
+            blob_len.append(L)
+            pending_new = None
+        elif k < 0.58:
+            S = rng.choice([0, 1, 16, 100, 3000, 4096, 5000, rng.randrange(1, 5000)])
+            ops.append('new %d' % S)
+            pending_new = S
+        elif k < 0.85:
+            K = rng.choice(usable)
+            ln = max(1, min(blob_len[K], rng.choice([1, 4, 6, 8, 8, 13, 300])))
+            off = rng.randrange(0, blob_len[K] - ln + 1)
+            ops.append('chg %d %d %d' % (K, off, ln))
+            pending_new = None
+        else:
+            big = [i for i in usable if blob_len[i] >= 8]
+            if not big:
+                continue
+            K = rng.choice(big)
+            offs = [rng.randrange(0, blob_len[K] - 7) for _ in range(rng.randrange(0, 5))]
+            ops.append('upd %d %s' % (K, ' '.join(map(str, offs))))
+            pending_new = None
+    return ops
